@@ -21,6 +21,13 @@ def _drivers():
     return m.DRIVERS
 
 
+def _drivers_props():
+    spec = importlib.util.spec_from_file_location("replay_index", os.path.join(ROOT, "replay", "index.py"))
+    m = importlib.util.module_from_spec(spec)
+    spec.loader.exec_module(m)
+    return getattr(m, "DRIVER_PROPS", {})
+
+
 def run_driver(script, extra_env=None):
     env = dict(os.environ, PYTHONPATH=REPO_SRC)
     env.update(extra_env or {})
